@@ -1,10 +1,12 @@
 #!/bin/bash
-# Runs a check against a MUTATED scratch copy of /repo without touching /repo or /verif/harness/target.
+# Runs a check against a MUTATED scratch copy of /repo without touching /repo or <framework>/harness/target.
 #   tools/mutant_run.sh <patch.diff | -e 'sed-expr file'> -- <check args...>
 #   e.g. tools/mutant_run.sh /tmp/m1.diff -- C01 --tier quick
 #        tools/mutant_run.sh -e 's/a < b/a <= b/' yrs/src/ids.rs -- C16 --tier quick
 # The scratch copy (repo, harness with its own target dir, work, evidence) lives under /tmp/mut-<pid> and is removed at the end.
 set -u
+# the framework this script belongs to (works from a clone as well)
+V="$(cd "$(dirname "${BASH_SOURCE[0]}")/.." && pwd)"
 S=/tmp/mut-$$
 mkdir -p $S/repo
 cleanup() { rm -rf "$S"; }
@@ -22,11 +24,11 @@ else
 fi
 [ "${1:-}" = "--" ] && shift
 mkdir -p $S/harness
-( cd /verif/harness && cp -r Cargo.toml .cargo src $S/harness/ )
+( cd "$V/harness" && cp -r Cargo.toml .cargo src $S/harness/ )
 sed -i "s#path = \"/repo/yrs\"#path = \"$S/repo/yrs\"#" $S/harness/Cargo.toml
 grep -rl '"/repo/' $S/harness/src 2>/dev/null | xargs -r sed -i "s#\"/repo/#\"$S/repo/#g"
 cp /repo/Cargo.lock $S/harness/Cargo.lock
-cd /verif
+cd "$V"
 # MUTANT_CMD (development aid): run that command instead of ./check in the same environment
 if [ -n "${MUTANT_CMD:-}" ]; then
   VERIF_REPO=$S/repo VERIF_HARNESS=$S/harness VERIF_WORK=$S/work VERIF_EVID=$S/evidence $MUTANT_CMD
